@@ -235,6 +235,8 @@ class Model:
                 c.methods[mn] = g
                 self.functions[g.qname] = g
                 self.pulled_up[g.qname] = base_def.qname
+        for f in self.functions.values():
+            self._devirtualise_locals(f)
         new_helpers = {q: f for q, f in self.functions.items() if short(q) not in known and not f.name.startswith("__")}
         self.absorbed = {}
         self.inlined_into = {}
@@ -289,6 +291,84 @@ class Model:
                 f.cls.methods.pop(f.name, None)
             else:
                 f.module.functions.pop(f.name, None)
+
+    def _devirtualise_locals(self, f: FuncInfo) -> None:
+        """`h = self.a if c else self.b; h(x)`  ->  `if c: self.a(x) else: self.b(x)`  (and `h = self.a; h(x)` -> `self.a(x)`):
+        a call through a local that is bound once to (a choice of) bound methods is written back as direct calls, so the
+        call-resolving engines see the callees."""
+        import copy as _copy
+        node = f.node
+        assigns: dict = {}
+        uses: dict = {}
+        for n in ast.walk(node):
+            if isinstance(n, (ast.FunctionDef, ast.AsyncFunctionDef, ast.Lambda)) and n is not node:
+                return  # nested scopes: leave alone
+        for n in ast.walk(node):
+            if isinstance(n, ast.Assign) and len(n.targets) == 1 and isinstance(n.targets[0], ast.Name):
+                assigns.setdefault(n.targets[0].id, []).append(n)
+            elif isinstance(n, ast.Name) and isinstance(n.ctx, ast.Store):
+                assigns.setdefault(n.id, [])
+        stores: dict = {}
+        for n in ast.walk(node):
+            if isinstance(n, ast.Name) and isinstance(n.ctx, (ast.Store, ast.Del)):
+                stores[n.id] = stores.get(n.id, 0) + 1
+            elif isinstance(n, ast.Name) and isinstance(n.ctx, ast.Load):
+                uses.setdefault(n.id, []).append(n)
+
+        def callable_expr(e: ast.AST) -> bool:
+            if isinstance(e, ast.Attribute) and isinstance(e.value, ast.Name):
+                return True
+            if isinstance(e, ast.IfExp):
+                return callable_expr(e.body) and callable_expr(e.orelse)
+            return False
+
+        cands = {}
+        for name, lst in assigns.items():
+            if len(lst) == 1 and stores.get(name, 0) == 1 and callable_expr(lst[0].value):
+                call_funcs = [c.func for c in ast.walk(node) if isinstance(c, ast.Call) and isinstance(c.func, ast.Name) and c.func.id == name]
+                if call_funcs and len(call_funcs) == len(uses.get(name, [])):
+                    cands[name] = lst[0]
+        if not cands:
+            return
+
+        def direct(e: ast.AST, call: ast.Call) -> ast.AST:
+            if isinstance(e, ast.IfExp):
+                return ast.IfExp(test=_copy.deepcopy(e.test), body=direct(e.body, call), orelse=direct(e.orelse, call))
+            return ast.Call(func=_copy.deepcopy(e), args=_copy.deepcopy(call.args), keywords=_copy.deepcopy(call.keywords))
+
+        def stmt_form(e: ast.AST, call: ast.Call, at: ast.AST) -> ast.stmt:
+            if isinstance(e, ast.IfExp):
+                return ast.If(test=_copy.deepcopy(e.test), body=[stmt_form(e.body, call, at)], orelse=[stmt_form(e.orelse, call, at)])
+            return ast.Expr(value=direct(e, call))
+
+        class T(ast.NodeTransformer):
+            def visit_Assign(self, n: ast.Assign):
+                if any(n is a for a in cands.values()):
+                    return None
+                return self.generic_visit(n)
+
+            def visit_Expr(self, n: ast.Expr):
+                v = n.value
+                if isinstance(v, ast.Call) and isinstance(v.func, ast.Name) and v.func.id in cands:
+                    new = stmt_form(cands[v.func.id].value, v, n)
+                    return ast.fix_missing_locations(ast.copy_location(new, n))
+                return self.generic_visit(n)
+
+            def visit_Call(self, n: ast.Call):
+                self.generic_visit(n)
+                if isinstance(n.func, ast.Name) and n.func.id in cands:
+                    return ast.fix_missing_locations(ast.copy_location(direct(cands[n.func.id].value, n), n))
+                return n
+
+        new = T().visit(_copy.deepcopy(node))
+        for n in ast.walk(new):
+            for fld in ("body", "orelse", "finalbody"):
+                b = getattr(n, fld, None)
+                if isinstance(b, list) and not b and fld == "body":
+                    setattr(n, fld, [ast.Pass()])
+        ast.fix_missing_locations(new)
+        f.__dict__.setdefault("raw_node", f.node)
+        f.node = new
 
     def _index_module(self, m: ModuleInfo) -> None:
         is_pkg = m.path.endswith("__init__.py")
